@@ -337,6 +337,43 @@ func runSchedOnce(sc schedScenario, prefix []int) *schedOutcome {
 	return out
 }
 
+// subSchedLines: debugging aid — run one schedule, print the trace, the model lines and the driver's answers.
+func subSchedLines(args []string) {
+	var idx int
+	fmt.Sscan(args[0], &idx)
+	var sched []int
+	for _, f := range strings.Fields(strings.ReplaceAll(args[1], ",", " ")) {
+		var c int
+		fmt.Sscan(f, &c)
+		sched = append(sched, c)
+	}
+	for try := 0; try < 8; try++ {
+		o := runSchedOnce(schedScenarios[idx], sched)
+		ml := epLines(o.Trace)
+		ans, _ := runDriver(ml)
+		bad := false
+		for _, a := range ans {
+			if strings.HasPrefix(a, "rejected") {
+				bad = true
+			}
+		}
+		if !bad && try < 7 {
+			continue
+		}
+		for _, e := range o.Trace {
+			fmt.Printf("EV %s %s %s\n", e.G, e.Point, e.Key)
+		}
+		for i, l := range ml {
+			a := ""
+			if i < len(ans) {
+				a = ans[i]
+			}
+			fmt.Printf("%-40s -> %s\n", l, a)
+		}
+		return
+	}
+}
+
 // subSched: child. Explores the schedules of one scenario (DFS, capped) and prints findings.
 func subSched(args []string) {
 	var idx, capN int
@@ -379,7 +416,39 @@ func subSched(args []string) {
 				steps++
 			}
 			if bad != "" {
-				fmt.Fprintf(w, "MODELBAD M2 rejects an implementation step: %s | schedule=%s\n", bad, modelScheds[i])
+				// re-run that schedule in isolation before reporting: events of goroutines left over from the
+				// previous run of a long exploration can pollute a trace
+				var sched []int
+				for _, f := range strings.Fields(strings.Trim(modelScheds[i], "[]")) {
+					var c int
+					fmt.Sscan(f, &c)
+					sched = append(sched, c)
+				}
+				again := ""
+				for k := 0; k < 4 && again == ""; k++ {
+					time.Sleep(20 * time.Millisecond)
+					o2 := runSchedOnce(sc, sched)
+					if len(o2.Problems) > 0 {
+						continue
+					}
+					ml := epLines(o2.Trace)
+					a2, err := runDriver(ml)
+					if err != nil {
+						continue
+					}
+					for j, x := range a2 {
+						if strings.HasPrefix(x, "rejected") || strings.HasPrefix(x, "bad-op") {
+							again = fmt.Sprintf("%s (step %d of %d)", x, j, len(a2))
+							break
+						}
+					}
+				}
+				if again != "" {
+					fmt.Fprintf(w, "MODELBAD M2 rejects an implementation step: %s | schedule=%s\n", again, modelScheds[i])
+				} else {
+					fmt.Fprintf(w, "MODELUNCONFIRMED %s | schedule=%s\n", bad, modelScheds[i])
+					okRuns++
+				}
 			} else {
 				okRuns++
 			}
@@ -412,6 +481,24 @@ func subSched(args []string) {
 				modelSpans = append(modelSpans, [2]int{len(modelLines), len(modelLines) + len(ml)})
 				modelLines = append(modelLines, ml...)
 				modelScheds = append(modelScheds, fmt.Sprint(o.Schedule))
+			}
+		}
+		if len(o.Problems) > 0 {
+			// re-run the same schedule in isolation before reporting (select coin flips: up to 6 repetitions)
+			confirmed := false
+			for k := 0; k < 6 && !confirmed; k++ {
+				o2 := runSchedOnce(sc, o.Schedule)
+				for _, p2 := range o2.Problems {
+					for _, p1 := range o.Problems {
+						if strings.SplitN(p1, " (", 2)[0] == strings.SplitN(p2, " (", 2)[0] {
+							confirmed = true
+						}
+					}
+				}
+			}
+			if !confirmed {
+				fmt.Fprintf(w, "UNCONFIRMED %s | schedule=%v\n", o.Problems[0], o.Schedule)
+				o.Problems = nil
 			}
 		}
 		for _, p := range o.Problems {
@@ -533,7 +620,76 @@ func runSchedSuite(rep *Report, tier string, seed int64, prop string) {
 				map[string]any{"suite": "C05-shutdown", "cmd": fmt.Sprintf("bin/harness -sub shutdown %d", rounds)})
 		}
 	}
+	// ---- panics raised by application code, each in its own child process
+	if prop == "C05" {
+		for _, kind := range []string{"handler-panic", "handler-panic-nonerror", "closure-panic", "error-method-panics", "typed-nil-error", "error-method-panics-2", "typed-nil-error-2"} {
+			rep.Evaluations++
+			out, se, code := runSelf("-sub", "userpanic", kind)
+			if code != 0 || !strings.Contains(out, "DONE") {
+				rep.addViolation("property", "C05:userpanic:"+kind+":crash", fmt.Sprintf("application code panicked (%s) and the process died instead of the panic surfacing as an error: %s", kind, firstLine(se)),
+					map[string]any{"suite": "C05-userpanic", "cmd": "bin/harness -sub userpanic " + kind})
+				continue
+			}
+			for _, l := range strings.Split(out, "\n") {
+				if strings.HasPrefix(l, "BAD ") {
+					rep.addViolation("property", "C05:userpanic:"+kind, l[4:], map[string]any{"suite": "C05-userpanic", "cmd": "bin/harness -sub userpanic " + kind})
+				}
+			}
+		}
+	}
 	_ = seed
+}
+
+// subUserPanic: child. Application code panics in one of several places; the process must survive and
+// the panic must surface as an error of the call or of the link.
+func subUserPanic(args []string) {
+	kind := args[0]
+	p, err := NewPair(jsonRaw(), PairOpts{API: "message"})
+	if err != nil {
+		fmt.Println("BAD setup:", err)
+		return
+	}
+	ra, _, _ := p.A.AnyRemote()
+	ctx := context.Background()
+	var r callResult
+	switch kind {
+	case "handler-panic":
+		r = withWatchdog(func() (any, error) { return nil, ra.Panic(ctx, "boom") })
+	case "handler-panic-nonerror":
+		r = withWatchdog(func() (any, error) { return nil, ra.Panic(ctx, "\x00nonerror") })
+	case "closure-panic":
+		r = withWatchdog(func() (any, error) {
+			return ra.WithClosure(ctx, 1, false, func(ctx context.Context, i int, s string) (string, error) { panic(errors.New("closure boom")) })
+		})
+		if r.ok && r.err == nil {
+			if out := r.val.([]string); len(out) != 1 || out[0] != "ERR:closure boom" {
+				fmt.Printf("BAD a panicking closure handed %v back to the invoking handler (want an error result)\n", out)
+			}
+			fmt.Println("DONE")
+			return
+		}
+	case "error-method-panics":
+		r = withWatchdog(func() (any, error) { return nil, ra.BadErr(ctx, 1) })
+	case "typed-nil-error":
+		r = withWatchdog(func() (any, error) { return nil, ra.BadErr(ctx, 0) })
+	case "error-method-panics-2":
+		r = withWatchdog(func() (any, error) { return ra.BadErrVal(ctx, 1) })
+	case "typed-nil-error-2":
+		r = withWatchdog(func() (any, error) { return ra.BadErrVal(ctx, 0) })
+	}
+	// a handler panic is fatal for the link by design: the call must come back with an error (after the application
+	// tears the link down) or the link must report an error; a nil error with no link error is a swallowed panic
+	linkErr := error(nil)
+	select {
+	case linkErr = <-p.B.LinkErr:
+	case linkErr = <-p.A.LinkErr:
+	case <-time.After(500 * time.Millisecond):
+	}
+	p.Shutdown()
+	if r.ok && r.err == nil && linkErr == nil {
+		fmt.Printf("BAD application code panicked (%s) but neither the call nor the link reported an error\n", kind)
+	}
+	fmt.Println("DONE")
 }
 
 // subShutdown: child. Each round: 48 calls in flight against a peer that never answers (contexts: the
